@@ -68,6 +68,14 @@ func rtCatalogue(tier string) []rtCase {
 					}
 				}
 			}
+			// ascending prime sizes (31,31,45,45,45 bits): per-level quantities such as QiOverflowMargin(level) depend on
+			// the largest prime *up to and including* that level, which only shows when Q[level] is the largest so far
+			asc := append([]uint64{}, all...)
+			for i, j := 0, len(asc)-1; i < j; i, j = i+1, j-1 {
+				asc[i], asc[j] = asc[j], asc[i]
+			}
+			ascLit := rlwe.ParametersLiteral{LogN: logN, RingType: rt, Q: asc, P: ps[:2]}
+			r = append(r, rtCase{fmt.Sprintf("rlwe/N%d/%s/ascending-q5p2", logN, rtName(rt)), lit{sch: sRLWE, rl: ascLit}})
 			// generated moduli with a custom root order (the literal, not the parameters, carries LogNthRoot)
 			gen := rlwe.ParametersLiteral{LogN: logN, RingType: rt, LogQ: []int{40, 30, 30}, LogP: []int{41}, LogNthRoot: logN + 4}
 			tag := fmt.Sprintf("N%d/%s/LogQ-LogNthRoot%d", logN, rtName(rt), logN+4)
@@ -99,6 +107,7 @@ func roundTripScenario(k rtCase) engine.Scenario {
 			rtRLWE(c, name, k.l, p)
 			derivedRLWE(c, name, p)
 			smokeRLWE(c, "roundtrip-smoke", name, p)
+			codecOfDerived(c, name, p)
 		case bgv.Parameters:
 			rtBGV(c, name, k.l, p)
 			derivedRLWE(c, name, p.Parameters)
@@ -109,6 +118,7 @@ func roundTripScenario(k rtCase) engine.Scenario {
 			derivedRLWE(c, name, p.Parameters)
 			derivedCKKS(c, name, p)
 			smokeCKKS(c, "roundtrip-smoke", name, p)
+			codecOfDerived(c, name, p.Parameters)
 		}
 		c.Outcome(name)
 	}}
@@ -155,6 +165,44 @@ func runCodec(c *engine.Chooser, tag string, k codec) {
 		fail("literal-json", "the user's literal, sent through encoding/json, yields parameters that are not Equal to the original ones")
 	}
 	c.Count(4)
+}
+
+// codecOfDerived: parameter objects that were not built by a constructor but derived from another object
+// (StandardParameters of a conjugate-invariant set, the copy behind GetRLWEParameters) must encode like any other:
+// BinarySize() == len(MarshalBinary()) == bytes written by WriteTo, and decoding gives an Equal object.
+func codecOfDerived(c *engine.Chooser, tag string, p rlwe.Parameters) {
+	objs := map[string]rlwe.Parameters{"GetRLWEParameters": *p.GetRLWEParameters()}
+	if std, err := p.StandardParameters(); err == nil {
+		objs["StandardParameters"] = std
+	} else {
+		c.Fail("C19/roundtrip/StandardParameters-error", "%s: %v", tag, err)
+	}
+	for _, how := range []string{"GetRLWEParameters", "StandardParameters"} {
+		d, ok := objs[how]
+		if !ok {
+			continue
+		}
+		b, err := d.MarshalBinary()
+		if err != nil {
+			c.Fail("C19/roundtrip/derived/"+how+"/marshal-error", "%s: %v", tag, err)
+			continue
+		}
+		var buf bytes.Buffer
+		n, werr := d.WriteTo(&buf)
+		if d.BinarySize() != len(b) || werr != nil || int(n) != len(b) || !bytes.Equal(buf.Bytes(), b) {
+			c.Fail("C19/roundtrip/derived/"+how+"/binarysize", "%s: BinarySize()=%d, MarshalBinary gives %d bytes, WriteTo wrote %d (err %v)", tag, d.BinarySize(), len(b), n, werr)
+		}
+		var back rlwe.Parameters
+		if err := back.UnmarshalBinary(b); err != nil || !back.Equal(&d) || !d.Equal(&back) {
+			c.Fail("C19/roundtrip/derived/"+how+"/not-equal", "%s: UnmarshalBinary(MarshalBinary(p)): err=%v", tag, err)
+		}
+		if how == "StandardParameters" && p.RingType() == ring.ConjugateInvariant {
+			c.Cover("roundtrip", "StandardParameters-of-conjugate-invariant")
+			if d.RingType() != ring.Standard || d.LogN() != p.LogN()+1 || d.RingQ().N() != 2*p.N() {
+				c.Fail("C19/derived/StandardParameters", "%s: ring type %v LogN %d ring degree %d", tag, d.RingType(), d.LogN(), d.RingQ().N())
+			}
+		}
+	}
 }
 
 func rtRLWE(c *engine.Chooser, tag string, l lit, p rlwe.Parameters) {
